@@ -553,7 +553,7 @@ class Column:
                 'when() can only be applied on a Column previously generated by when()'
             )
 
-        return Column(self.expr.add_when(parse(condition), parse(value)))
+        return Column(self.expr.add_when(parse(condition), parse_value(value)))
 
     def otherwise(self, value):
         """
@@ -585,7 +585,7 @@ class Column:
                 'otherwise() can only be applied on a Column previously generated by when()'
             )
 
-        return Column(self.expr.set_otherwise(parse(value)))
+        return Column(self.expr.set_otherwise(parse_value(value)))
 
     def eval(self, row, schema):
         if isinstance(self.expr, Expression):
@@ -716,6 +716,18 @@ def parse(arg):
         return Column(StarOperator())
     if isinstance(arg, (str, Expression)):
         return Column(arg)
+    return Literal(value=arg)
+
+
+def parse_value(arg):
+    """
+    The value of a when() / otherwise() branch is "a literal value, or a
+    Column expression": a string is a string literal, not a column name
+
+    :rtype: Column
+    """
+    if isinstance(arg, Column):
+        return arg
     return Literal(value=arg)
 
 
